@@ -12,6 +12,8 @@ func allRules() []*Rule {
 		ruleR10(),
 		ruleR11(),
 		ruleR12(),
+		ruleR13(),
+		ruleR14(),
 		ruleR16(),
 		ruleR21(),
 		ruleR22(),
